@@ -43,6 +43,8 @@ def binary(flavour="hooks"):
 def build(flavour="hooks", quiet=True):
     f = FLAVOURS[flavour]
     bdir = build_dir(flavour)
+    if os.environ.get("VERIF_NOBUILD") and os.path.exists(binary(flavour)):
+        return binary(flavour)      # development aid: use the binary as it is (never set by the registered commands)
     os.makedirs(bdir, exist_ok=True)
     lock = open(os.path.join(BUILD_ROOT, ".lock-" + flavour + _tag()), "w")
     fcntl.flock(lock, fcntl.LOCK_EX)
